@@ -370,6 +370,13 @@ def c08_r6(ctx):
             conds = [norm.canon(t) for g_ in comp.generators for t in g_.ifs]
             over = norm.canon(comp.generators[0].iter)
             ok_ = not conds and "self.readers" in over
+            if not ok_ and not conds and i_ == 1 and isinstance(mcalls[0].args[0], ast.Name):
+                # the offsets picked by position, one per column reader already built for every sub-reader:
+                # [self.doc_offsets[i] for i in range(len(<the first list>))]
+                first = mcalls[0].args[0].id
+                tgt = comp.generators[0].target
+                ok_ = over in ("xrange(len(%s))" % first, "range(len(%s))" % first) and isinstance(tgt, ast.Name) and \
+                    norm.canon(comp.elt) == "self.doc_offsets[%s]" % tgt.id and whole == 1
             ctx.ob(f, ok_, "%s are built for every sub-reader" % ("the column readers" if i_ == 0 else "the offsets"),
                    detail="" if ok_ else "built by a comprehension over %s with conditions %s: segments lacking the column are skipped, so "
                                         "later segments' documents read other documents' values" % (over, conds), loc=ctx.nodeloc(f, v))
